@@ -8,11 +8,10 @@ import ILV.Model.Batch
 namespace ILV.Batch
 open ILV
 
+/-- kinds whose column reproduces its values: all of them. (Kept as a predicate so that a future
+    regression shows up as a `false` here.) -/
 def safeKind : DType → Bool
-  | .i32 | .i64 | .f64 | .str | .bool => true
-  | .vec d => decide (d > 0)
-  | .vec8 d => decide (d > 0)
-  | .null | .ts => false
+  | _ => true
 
 theorem coerceScalar_same (v : Value) (h : safeKind (dataType v) = true)
     (hv : ∀ d, dataType v ≠ .vec d) (hv8 : ∀ d, dataType v ≠ .vec8 d) : coerceScalar (dataType v) v = v := by
@@ -42,6 +41,26 @@ theorem length_flatten_const {α} (d : Nat) : ∀ (ls : List (List α)), (∀ l 
     simp only [List.flatten_cons, List.length_append, List.length_cons, h l (by simp),
       ih (fun x hx => h x (by simp [hx]))]
     rw [Nat.add_mul]; omega
+
+theorem vecColumn_zero (col : List Value) (h : ∀ v ∈ col, dataType v = .vec 0) : vecColumn 0 col = some col := by
+  simp only [vecColumn, beq_self_eq_true, if_true]
+  congr 1
+  conv => rhs; rw [← List.map_id col]
+  apply List.map_congr_left
+  intro v hv
+  have := h v hv
+  cases v <;> simp [dataType] at this
+  simp [vecCells]
+
+theorem vec8Column_zero (col : List Value) (h : ∀ v ∈ col, dataType v = .vec8 0) : vec8Column 0 col = some col := by
+  simp only [vec8Column, beq_self_eq_true, if_true]
+  congr 1
+  conv => rhs; rw [← List.map_id col]
+  apply List.map_congr_left
+  intro v hv
+  have := h v hv
+  cases v <;> simp [dataType] at this
+  simp [vec8Cells]
 
 theorem vecColumn_same (d : Nat) (hd : d > 0) (col : List Value) (h : ∀ v ∈ col, dataType v = .vec d) :
     vecColumn d col = some col := by
@@ -117,11 +136,24 @@ theorem vec8Column_same (d : Nat) (hd : d > 0) (col : List Value) (h : ∀ v ∈
 theorem column_same (ty : DType) (hs : safeKind ty = true) (col : List Value) (h : ∀ v ∈ col, dataType v = ty) :
     column ty col = some col := by
   cases ty with
-  | null => simp [safeKind] at hs
-  | ts => simp [safeKind] at hs
-  | vec d => exact vecColumn_same d (by simpa [safeKind] using hs) col h
-  | vec8 d => exact vec8Column_same d (by simpa [safeKind] using hs) col h
-  | i32 | i64 | f64 | str | bool =>
+  | null =>
+    simp only [column]
+    congr 1
+    conv => rhs; rw [← List.map_id col]
+    apply List.map_congr_left
+    intro v hv
+    have := h v hv
+    cases v <;> simp [dataType] at this
+    rfl
+  | vec d =>
+    cases d with
+    | zero => exact vecColumn_zero col h
+    | succ d => exact vecColumn_same (d + 1) (by omega) col h
+  | vec8 d =>
+    cases d with
+    | zero => exact vec8Column_zero col h
+    | succ d => exact vec8Column_same (d + 1) (by omega) col h
+  | i32 | i64 | f64 | str | bool | ts =>
     all_goals
       simp only [column]
       congr 1
@@ -219,8 +251,9 @@ theorem rowsOf_colsFrom (rows : List Tuple) (k : Nat) (hk : ∀ r ∈ rows, r.le
     simpa using this
 
 /-- **a homogeneous batch is read back unchanged.** -/
-theorem tuplesBack_homog (ks : List DType) (hne : ks ≠ []) (hs : ks.all safeKind = true) (rows : List Tuple)
+theorem tuplesBack_homog (ks : List DType) (rows : List Tuple)
     (h : ∀ r ∈ rows, r.map dataType = ks) : tuplesBack rows = .ok rows := by
+  have hs : ks.all safeKind = true := by simp [safeKind]
   cases rows with
   | nil => rfl
   | cons first rest =>
@@ -231,8 +264,7 @@ theorem tuplesBack_homog (ks : List DType) (hne : ks ≠ []) (hs : ks.all safeKi
     have hall : (first :: rest).all (fun r => r.length == ks.length) = true := by
       rw [List.all_eq_true]; intro r hr; simp [hlen r hr]
     rw [hall]
-    have hne' : ks.isEmpty = false := by cases ks <;> simp_all
-    simp only [Bool.not_true, Bool.false_eq_true, if_false, hne']
+    simp only [Bool.not_true, Bool.false_eq_true, if_false]
     rw [columnsBack_same ks 0 (first :: rest) hs (fun r hr => by simpa using h r hr)]
     simp only
     have := rowsOf_colsFrom (first :: rest) ks.length hlen (first :: rest) [] rfl
@@ -245,10 +277,10 @@ theorem rezip_same : ∀ (us : List Update), rezip us (us.map (·.data)) = us :=
   | nil => rfl
   | cons u us ih => simp [rezip, ih]
 
-theorem batchCodec_homog (ks : List DType) (hne : ks ≠ []) (hs : ks.all safeKind = true) (us : List Update)
+theorem batchCodec_homog (ks : List DType) (us : List Update)
     (h : ∀ u ∈ us, u.data.map dataType = ks) : batchCodec us = .ok us := by
   unfold batchCodec
-  rw [tuplesBack_homog ks hne hs (us.map (·.data)) (by intro r hr; rw [List.mem_map] at hr; obtain ⟨u, hu, rfl⟩ := hr; exact h u hu)]
+  rw [tuplesBack_homog ks (us.map (·.data)) (by intro r hr; rw [List.mem_map] at hr; obtain ⟨u, hu, rfl⟩ := hr; exact h u hu)]
   simp [rezip_same]
 
 end ILV.Batch
